@@ -18,6 +18,7 @@ __CPROVER_requires(b1 == mon_data[mon_i + 1] && b2 == mon_data[mon_i + 2] && b3 
 __CPROVER_requires(G_DIAG_ROOM)
 __CPROVER_assigns(G)
 __CPROVER_ensures(g_diag >= __CPROVER_old(g_diag) && g_diag <= __CPROVER_old(g_diag) + 2)
+__CPROVER_ensures(g_file_failures == __CPROVER_old(g_file_failures))   /* frame: main-level bookkeeping untouched */
 __CPROVER_ensures(__CPROVER_return_value ==> (mon_phase == PH_TOKENS && mon_i == __CPROVER_old(mon_i) + 4 && !mon_q))
 __CPROVER_ensures(__CPROVER_return_value ==> (g_wfail == __CPROVER_old(g_wfail) && g_diag == __CPROVER_old(g_diag)))
 __CPROVER_ensures(!__CPROVER_return_value ==> (g_wfail != __CPROVER_old(g_wfail) && g_diag > __CPROVER_old(g_diag) && mon_i == __CPROVER_old(mon_i)))
@@ -41,6 +42,7 @@ __CPROVER_requires(*input == mon_data + mon_i + 1 && *len == mon_len - mon_i - 1
 __CPROVER_requires(m == &SPEC_MAP && G_DIAG_ROOM)
 __CPROVER_requires(0 <= file_pos && file_pos <= (1l << 41))
 __CPROVER_assigns(*input, *len, G)
+__CPROVER_ensures(g_file_failures == __CPROVER_old(g_file_failures))   /* frame: main-level bookkeeping untouched */
 __CPROVER_ensures(g_diag >= __CPROVER_old(g_diag) && g_diag <= __CPROVER_old(g_diag) + 6)
 /* success: exactly the bytes of one token were consumed and exactly its expansion was listed
    (the event itself is checked by the monitor when it happens) */
@@ -80,6 +82,7 @@ __CPROVER_requires(fmon_on ==> (fmon_phase == FPH_LINE_READY && fmon_lines == g_
                                 (const void *)data == g_last_fread_dst && g_last_fread_n >= orig_len &&
                                 (fmon_gk < orig_len ==> (unsigned char)data[fmon_gk] == g_file[fmon_body + fmon_gk])))
 __CPROVER_assigns(*indent, G)
+__CPROVER_ensures(g_file_failures == __CPROVER_old(g_file_failures))   /* frame: main-level bookkeeping untouched */
 __CPROVER_ensures(g_diag >= __CPROVER_old(g_diag) && g_diag <= __CPROVER_old(g_diag) + 8)
 /* C03: returns true only after the monitor has seen the complete listing of the line */
 __CPROVER_ensures(__CPROVER_return_value ==> (mon_phase == PH_DONE && mon_i == mon_len))
@@ -116,6 +119,20 @@ __CPROVER_ensures(*indent >= __CPROVER_old(*indent) - 4 * (int)orig_len && *inde
   __CPROVER_requires(G_DIAG_ROOM_L3 && !g_read_error_happened)
 
 #define L3_ENSURES \
+  __CPROVER_ensures(g_file_failures == __CPROVER_old(g_file_failures)) \
+  __CPROVER_ensures(g_diag >= __CPROVER_old(g_diag) && g_diag <= __CPROVER_old(g_diag) + 16) \
+  /* C09(i): success only on a complete, well-framed program, every framed line listed once */ \
+  __CPROVER_ensures(__CPROVER_return_value ==> (fmon_phase == FPH_DONE && g_lines_listed == fmon_lines)) \
+  /* C11 */ \
+  __CPROVER_ensures(__CPROVER_return_value ==> g_wfail == __CPROVER_old(g_wfail)) \
+  /* C08/C09: failure comes with a diagnostic */ \
+  __CPROVER_ensures(!__CPROVER_return_value ==> g_diag > __CPROVER_old(g_diag)) \
+  /* C03: a well-formed program is never rejected (absent I/O errors) */ \
+  __CPROVER_ensures((!__CPROVER_return_value && g_wfail == __CPROVER_old(g_wfail) && !g_read_error_happened) ==> \
+                    (fmon_phase == FPH_BAD || \
+                     (fmon_phase == FPH_LINE_READY && mon_reject_ok)))
+
+#define L3_ENSURES_NOFF \
   __CPROVER_ensures(g_diag >= __CPROVER_old(g_diag) && g_diag <= __CPROVER_old(g_diag) + 16) \
   /* C09(i): success only on a complete, well-framed program, every framed line listed once */ \
   __CPROVER_ensures(__CPROVER_return_value ==> (fmon_phase == FPH_DONE && g_lines_listed == fmon_lines)) \
